@@ -96,7 +96,7 @@ def run(ck):
             ext = [i for i, rec in enumerate(table) if is_extreme(rec)]
             rest = [i for i in range(total) if i not in set(ext)]
             ck.rng.shuffle(rest)
-            sel = ext + rest[:320 - len(ext)]
+            sel = ext + rest[:640 - len(ext)]
             ck.rng.shuffle(sel)
             per_ring = 8
             ck.exhaustive = False
@@ -175,7 +175,7 @@ def run(ck):
     if unclean:
         ck.notes.append("%d rings were rebuilt because removing the content through the ring did not leave every store empty" % unclean)
     ck.rule = ("TLC enumerates every assignment of a subset of {SIMPLE, PREFIX, LEASE} to each of the keys a, ab, abc, b (thorough: and the empty key) with the "
-               "declared answer for the prefixes '', a, ab, abc, b, c; quick runs a seeded sample of 320 assignments (always including nothing / everything / one "
+               "declared answer for the prefixes '', a, ab, abc, b, c; quick runs a seeded sample of 640 assignments (always including nothing / everything / one "
                "kind everywhere), thorough all of them; each is stored through a real ring of 1..4 nodes (ring sizes cycle; node ids uniformly random, inside "
                "random arcs between key identifiers, at key identifier +/- 1, or adjacent; memory and SQLite stores alternating, all-SQLite or random) by "
                "Put / PrefixAppend (1 or 2 children) / Acquire asked at seeded nodes, and ListKeys is asked at every node for every prefix; "
